@@ -20,6 +20,7 @@ import (
 	"github.com/ava-labs/avalanchego/ids"
 	"github.com/ava-labs/avalanchego/snow/engine/common"
 	"github.com/ava-labs/avalanchego/snow/engine/enginetest"
+	"github.com/ava-labs/avalanchego/snow/engine/snowman/block"
 	"github.com/ava-labs/avalanchego/snow/snowtest"
 	"github.com/ava-labs/avalanchego/utils/hashing"
 	"github.com/ava-labs/avalanchego/utils/logging"
@@ -46,6 +47,7 @@ import (
 )
 
 type (
+	blockContext = block.Context
 	sblock = snow.StatefulBlock[*chain.ExecutionBlock, *chain.OutputBlock, *chain.OutputBlock]
 	svm    = snow.VM[*chain.ExecutionBlock, *chain.OutputBlock, *chain.OutputBlock]
 )
@@ -85,7 +87,8 @@ type control struct {
 	lag  uint64 // the accepter may start block h only once min(n, h+lag) blocks are indexed
 	n    uint64
 
-	indexed   uint64 // blocks whose Accept returned on the consensus thread (or whose index update was done)
+	indexed   uint64 // highest block whose index update was done
+	accepted  uint64 // blocks whose Accept returned on the consensus thread
 	processed uint64 // blocks fully processed by the accepter (last subscriber returned)
 	cur       uint64 // block the accepter is working on
 	killed    bool   // the node is being killed: whoever is waiting at a gate must die
@@ -187,7 +190,7 @@ func (c *crashChain) AcceptBlock(ctx context.Context, parent *chain.OutputBlock,
 	// gate: the accepter is stalled until enough blocks are indexed ahead of it
 	ctl.mu.Lock()
 	ctl.cur = h
-	for !ctl.open && !ctl.killed && ctl.indexed < min64(ctl.n, h+ctl.lag) {
+	for !ctl.open && !ctl.killed && ctl.accepted < min64(ctl.n, h+ctl.lag) && !(ctl.kind == kPreIndex && h >= ctl.k) {
 		ctl.cond.Wait()
 	}
 	killed := ctl.killed
@@ -238,8 +241,6 @@ func (ci *crashIndex) UpdateLastAccepted(ctx context.Context, blk *chain.Executi
 	ctl.cond.Broadcast()
 	ctl.mu.Unlock()
 	if post {
-		// the accepter is let run as far as its gate allows; it cannot see block h (not queued)
-		ctl.waitFor(func() bool { return ctl.processed >= h }, 30*time.Millisecond)
 		ctl.die()
 	}
 	return nil
@@ -432,7 +433,7 @@ func startNode(tb testing.TB, w *world, dir string, ctl *control) (*node, initOu
 	snowCtx.ChainDataDir = dir
 	snowCtx.NodeID = ids.BuildTestNodeID([]byte{1})
 	toEngine := make(chan common.Message, 8)
-	appSender := &enginetest.Sender{T: tb}
+	appSender := &enginetest.Sender{}
 	done := make(chan initOutcome, 1)
 	go func() {
 		defer func() {
@@ -503,7 +504,7 @@ func probe(dir string) markers {
 	}
 	if v, err := rdb.Get([]byte{0}); err == nil && len(v) >= 8 {
 		m.Results = binary.BigEndian.Uint64(v[len(v)-8:])
-		m.ResHash = hashing.ComputeHash256Array(v).String()
+		m.ResHash = ids.ID(hashing.ComputeHash256Array(v)).String()
 	} else if err != nil && err != database.ErrNotFound {
 		m.Err += "results: " + err.Error()
 	}
